@@ -64,16 +64,26 @@ def createFileCfg (cfg : Cfg) (name : Bytes) (now : Nat) : Option St :=
 
 /-- the torn-tail walk of `openExistingFile`: total length of the leading blocks that are entirely
     there (16-byte header + `CompressedSize` bytes each) -/
-def walkEnd : Nat → Bytes → Nat
+def walkEnd (stopZero : Bool) : Nat → Bytes → Nat
   | 0, _ => 0
   | fuel + 1, rest =>
     if shorterThan rest 16 then 0 else
     let cs := unle (rest.take 4)
-    if shorterThan (rest.drop 16) cs then 0 else 16 + cs + walkEnd fuel (rest.drop (16 + cs))
+    if shorterThan (rest.drop 16) cs then 0
+    -- a zero size field: the zero-filled tail the reader takes for the end of the data
+    else if stopZero && cs == 0 then 0
+    else 16 + cs + walkEnd stopZero fuel (rest.drop (16 + cs))
 
 /-- `openExistingFile`: the session and the (possibly truncated) file.  A file too short for its
     header or name is re-created by the code; the model does not follow that path (no state the
-    writer itself leaves behind has that shape) and reports `none`. -/
+    writer itself leaves behind has that shape) and reports `none`.  The same holds for the three
+    branches the code has for files no history of the writer alone produces: a header of 64 zero
+    bytes (the file is replaced by a fresh one), a last walked block whose checksum does not match
+    (it is cut as well) and a damaged block with an intact one behind it (open fails, the file is
+    left untouched).  On every file the writer leaves behind none of them is taken: the header
+    carries the magic, the walk reaches the end of the file and every block has the checksum it was
+    written with (`openExisting_ok`).  Their presence is extracted (`openRestartsZeroHeader`,
+    `openChecksLastBlock`, `openSparesMidDamage`) so that a change of that code is noticed. -/
 def openExisting (cfg : Cfg) (file : Bytes) : Option (Bytes × Sess) :=
   if file.length < 64 then none else
   match decodeFileHeader (file.take 64) with
@@ -81,7 +91,7 @@ def openExisting (cfg : Cfg) (file : Bytes) : Option (Bytes × Sess) :=
   | .ok h =>
     if file.length < h.dataStart then none else
     let file' := if cfg.openCutsTornTail
-      then file.take (h.dataStart + walkEnd (file.length / 16 + 1) (file.drop h.dataStart)) else file
+      then file.take (h.dataStart + walkEnd cfg.openStopsAtZeroSize (file.length / 16 + 1) (file.drop h.dataStart)) else file
     some (file', ⟨h, [], 0, 0, h.blockCount, h.entryCount⟩)
 
 /-- in-place rewrite of the first 64 bytes -/
